@@ -32,7 +32,12 @@ func (x *rgen) users() []int {
 
 func (x *rgen) attr(name string, depth int, tags bool) Attr {
 	r := x.r
-	a := Attr{Name: name, Req: []string{}, Meta: []int{}}
+	a := Attr{Name: name, Req: []string{}, Meta: []int{}, Enum: []int{}}
+	if r.Intn(4) == 0 {
+		for k := 1 + r.Intn(2); len(a.Enum) < k; {
+			a.Enum = append(a.Enum, len(a.Enum)+1)
+		}
+	}
 	if r.Intn(3) == 0 {
 		a.Desc = 1 + r.Intn(2)
 	}
@@ -84,7 +89,7 @@ func (x *rgen) term(depth int) Ref {
 		nd.Attrs = append(nd.Attrs, x.attr("elem", depth+1, false))
 	case k < 2:
 		nd.Kind = "map"
-		key := Attr{Name: "key", Req: []string{}, Meta: []int{}, Ref: Ref{P: []string{"string", "int"}[r.Intn(2)]}}
+		key := Attr{Name: "key", Req: []string{}, Meta: []int{}, Enum: []int{}, Ref: Ref{P: []string{"string", "int"}[r.Intn(2)]}}
 		nd.Attrs = append(nd.Attrs, key, x.attr("elem", depth+1, false))
 	case k < 5:
 		nd.Kind = "object"
@@ -232,6 +237,25 @@ func randStep(r *rand.Rand, c Graph, side string) Step {
 		for k := range nd.Attrs {
 			for _, op := range []string{"meta", "meta", "tag", "req", "vmerge", "type", "desc"} {
 				ss = append(ss, Step{side, op, id, k + 1})
+			}
+			a := nd.Attrs[k]
+			if len(a.Meta) >= 1 {
+				ss = append(ss, Step{side, "metaset", id, k + 1})
+			}
+			if len(a.Meta) >= 2 {
+				ss = append(ss, Step{side, "metarev", id, k + 1})
+			}
+			if a.Tags.Name != 0 {
+				ss = append(ss, Step{side, "tagset", id, k + 1})
+			}
+			if len(a.Req) >= 1 {
+				ss = append(ss, Step{side, "reqset", id, k + 1})
+			}
+			if len(a.Enum) >= 1 {
+				ss = append(ss, Step{side, "enumset", id, k + 1})
+			}
+			if nd.Kind == "object" || nd.Kind == "union" {
+				ss = append(ss, Step{side, "slot", id, k + 1})
 			}
 			if nd.Kind == "object" {
 				ss = append(ss, Step{side, "set", id, k + 1}, Step{side, "del", id, k + 1})
